@@ -63,6 +63,15 @@ def accepts (wantFromReader : Bool) (mySess : Nat) (ctr' : UInt32)
     (fromReader : Bool) (sess : Nat) (n : Nat) (tampered : Bool) : Bool :=
   fromReader == wantFromReader && sess == mySess && n == ctr'.toNat && !tampered
 
+/-- `finalize_if_complete`: a prepared response with no document left to sign (possibly none to
+begin with) is built, encrypted with the next device counter and staged for retrieval -/
+def Device.finalizeIfComplete (d : Device) : Device :=
+  match d.st with
+  | .signing [] signed status =>
+    let c' := bump d.encCtr
+    { d with encCtr := c', st := .ready (.ct false d.sess c'.toNat (.response status signed) false) }
+  | _ => d
+
 def Device.handleRequest (d : Device) : Msg → Device × Outcome
   | .garbage => (d, .parsingError)
   | .noData => (d, .parsingError)
@@ -72,14 +81,14 @@ def Device.handleRequest (d : Device) : Msg → Device × Outcome
     if accepts true d.sess c' fr s n t then
       match p with
       | .request => (d, .accepted p)
-      | .notCbor => ({ d with st := .signing [] [] 11 }, .accepted p)
-      | .notRequest => ({ d with st := .signing [] [] 12 }, .accepted p)
-      | .response .. => ({ d with st := .signing [] [] 12 }, .accepted p)
+      | .notCbor => (({ d with st := .signing [] [] 11 } : Device).finalizeIfComplete, .accepted p)
+      | .notRequest => (({ d with st := .signing [] [] 12 } : Device).finalizeIfComplete, .accepted p)
+      | .response .. => (({ d with st := .signing [] [] 12 } : Device).finalizeIfComplete, .accepted p)
     else (d, .decryptionError)
 
 /-- `prepare_response`: overwrites the state whatever it was. `docs` in `prepared_documents` order. -/
 def Device.prepare (d : Device) (docs : List Nat) : Device :=
-  { d with st := .signing docs [] 0 }
+  ({ d with st := .signing docs [] 0 } : Device).finalizeIfComplete
 
 /-- `get_next_signature_payload`: the *last* prepared document. -/
 def Device.getNext (d : Device) : Option Nat :=
@@ -92,18 +101,17 @@ def Device.responseReady (d : Device) : Bool :=
   | .ready _ => true
   | _ => false
 
+/-- `PreparedDeviceResponse::submit_next_signature`: pop the last prepared document -/
+def attach (prepared : List Nat) (signed : List (Nat × Nat)) (sig : Nat) : List Nat × List (Nat × Nat) :=
+  match prepared.getLast? with
+  | some doc => (prepared.dropLast, signed ++ [(doc, sig)])
+  | none => (prepared, signed)
+
 /-- `submit_next_signature` -/
 def Device.submit (d : Device) (sig : Nat) : Device :=
   match d.st with
   | .signing prepared signed status =>
-    let (prepared', signed') :=
-      match prepared.getLast? with
-      | some doc => (prepared.dropLast, signed ++ [(doc, sig)])
-      | none => (prepared, signed)
-    if prepared'.isEmpty then
-      let c' := bump d.encCtr
-      { d with encCtr := c', st := .ready (.ct false d.sess c'.toNat (.response status signed') false) }
-    else { d with st := .signing prepared' signed' status }
+    ({ d with st := .signing (attach prepared signed sig).1 (attach prepared signed sig).2 status } : Device).finalizeIfComplete
   | _ => d
 
 /-- `retrieve_response` -/
@@ -150,17 +158,19 @@ structure World where
 
 def ivOf (reader : Bool) (before : UInt32) : Bytes := (Generated.getInitializationVector before reader).2
 
+/-- record an encryption if the device's counter moved -/
+def World.withDev (w : World) (d : Device) : World :=
+  if d.encCtr == w.dev.encCtr then { w with dev := d }
+  else { w with dev := d, log := w.log ++ [(false, d.encCtr, ivOf false w.dev.encCtr)] }
+
 def World.step (w : World) : Op → World
   | .newRequest =>
     let (r, _) := w.rdr.newRequest
     { w with rdr := r, log := w.log ++ [(true, r.encCtr, ivOf true w.rdr.encCtr)] }
-  | .handleRequest m => { w with dev := (w.dev.handleRequest m).1 }
-  | .prepare docs => { w with dev := w.dev.prepare docs }
+  | .handleRequest m => w.withDev (w.dev.handleRequest m).1
+  | .prepare docs => w.withDev (w.dev.prepare docs)
   | .getNext => w
-  | .submit sig =>
-    let d := w.dev.submit sig
-    if d.encCtr == w.dev.encCtr then { w with dev := d }
-    else { w with dev := d, log := w.log ++ [(false, d.encCtr, ivOf false w.dev.encCtr)] }
+  | .submit sig => w.withDev (w.dev.submit sig)
   | .responseReady => w
   | .retrieve => { w with dev := (w.dev.retrieve).1 }
   | .handleResponse m => { w with rdr := (w.rdr.handleResponse m).1 }
